@@ -91,6 +91,10 @@ def gen_scripts(tier, seed):
     for s in ["co,ce,g,x7", "o100,e50,co,ce,g,x7", "o%d,co,d5,e%d,ce,g,x7" % (2 * PIPE + 17, PIPE + 1), "e10,ce|o%d,co,g,x7" % (PIPE + 1)]:      # (each stream is closed by the thread that writes it: closing it from the other thread would race with the write)
         for w in ("plain", "mapped"):
             cases.append({"class": "streams-closed-child-lives-on", "script": s, "writer": w, "api": "spawn"})
+    # a child that stops in the middle of a line for longer than any plausible "flush what is pending" timer: a line is a line however long it takes
+    for s in ["o7,d2300,o9", "e5,d2300,e70|o3,d1200,o3,d1200,o3"]:
+        for api in ("output", "spawn"):
+            cases.append({"class": "pause-mid-line", "script": s, "writer": "mapped", "api": api})
     for i, (cls, s) in enumerate(scripts):
         writer = ["plain", "slow", "trickle", "mapped"][i % 4] if sum(parse_script(s)[:2]) < 3 * PIPE else ["plain", "mapped", "slow"][i % 3]
         api = ["output", "spawn"][(i // 3) % 2]
